@@ -919,6 +919,29 @@ def binding(ctx):
         if pr[0] == 'closure' and pr[1] in P.fns:
             ex = P.fns[pr[1]].exits()
             okn = len(ex) == 1 and find_calls(ex[0]['expr'], 'ItemPath::last') and any(x == ('upvar', 0) for x in walk(ex[0]['expr']))
+        if not ok1 and pr[0] == 'closure' and pr[1] in P.fns:
+            # no partition / filter in front: `scope.iter().rev().find(|ip| <registered(ip)> && ip.last() == name)` — the restriction to
+            # registered entries is the first conjunct of the predicate
+            it0, nrev0 = strip(xp(it)), 0
+            while it0[0] == 'call' and it0[2] and re.search(r'(IntoIterator::into_iter|Iterator::copied|Iterator::cloned|slice::<impl \[T\]>::iter|::deref|::as_slice|Iterator::rev)$', it0[3] if len(it0) > 3 else it0[1]):
+                nrev0 += 1 if is_call(it0, 'Iterator::rev') else 0
+                it0 = strip(it0[2][0])
+            pf_ = P.fns[pr[1]]
+            sw_ = pf_.switches()
+            if it0[0] == 'arg' and nrev0 == 1 and len(sw_) == 1 and len(pf_.exits()) == 2:
+                c_ = strip(sw_[0]['cond'])
+                mem = None
+                if c_[0] == 'call' and c_[1] in P.fns and P.fns[c_[1]].kind == 'Closure':
+                    mem = polarity(('closure', c_[1], []))
+                elif is_membership(P, c_):
+                    mem = True
+                te = dict((lab, tgt) for lab, tgt in sw_[0]['edges'])
+                tx = [x for x in pf_.exits() if True in te and (x['block'] == te[True] or pf_.dominates(te[True], x['block']))]
+                fx = [x for x in pf_.exits() if False in te and (x['block'] == te[False] or pf_.dominates(te[False], x['block']))]
+                conj = len(tx) == 1 and len(fx) == 1 and strip(fx[0]['expr'])[:2] == ('int', 0) and bool(find_calls(expand(pf_, tx[0]['expr']), 'ItemPath::last')) and \
+                    any(isinstance(x, tuple) and x and x[0] == 'upvar' for x in walk(tx[0]['expr'])) and is_call(strip(expand(pf_, tx[0]['expr'])), '::eq')
+                if mem is True and conj:
+                    return True
         return bool(ok1 and okn)
 
     def stage2_ok(ce, caps):
@@ -1090,6 +1113,9 @@ def binding(ctx):
             over_scope = any(strip(y)[0] == 'arg' and strip(y)[2] == 'scope' for y in walk(src1) if isinstance(y, tuple) and y)
 
             def member_closure(pc, positive):
+                pol_ = polarity(pc)          # (also through `let is_type = |ip| ..;  .filter(|ip| is_type(ip))`)
+                if pol_ is not None:
+                    return pol_ is positive
                 pf = predicate_fn(P, pc)
                 if pf is None:
                     return False
